@@ -79,11 +79,12 @@ def module_texts(root, tasks, intern):
     for m in sorted({t["module"] for t in tasks}):
         ts = [t for t in tasks if t["module"] == m]
         import engine_impl
-        key = (engine_impl.render_module(root, ts, 0), max(t["mver"] for t in ts))
+        render = engine_impl.render_pmodule if any("pdeps" in t for t in ts) else engine_impl.render_module
+        key = (render(root, ts, 0), max(t["mver"] for t in ts))
         if key not in intern:
             intern[key] = 1000 + len(intern)
         v = intern[key]
-        out[m] = (engine_impl.render_module(root, ts, v), v)
+        out[m] = (render(root, ts, v), v)
     return out
 
 
@@ -249,11 +250,16 @@ def _impl_history(case):
     try:
         for op in case["ops"]:
             k = op["op"]
+            def _path(n):
+                if n >= 10000 and n < 20000:
+                    return root / f"pat{(n - 10000) // 100}" / f"g{(n - 10000) % 100}.in"
+                return root / f"f{n}.txt"
             if k == "set":
-                p = root / f"f{op['n']}.txt"
+                p = _path(op["n"])
+                p.parent.mkdir(parents=True, exist_ok=True)
                 p.write_text(str(op["c"])); EI.stamp(p)
             elif k == "del":
-                (root / f"f{op['n']}.txt").unlink(missing_ok=True)
+                _path(op["n"]).unlink(missing_ok=True)
             elif k == "touch":
                 p = root / f"f{op['n']}.txt"
                 if p.exists():
@@ -399,13 +405,23 @@ def chars_of(cases_obs):
     return cs
 
 
+def tid_of_name(name):
+    """task_t<id>_ or, when several functions share the name, task_t<id>_[<generated id>]"""
+    import re
+    m = re.match(r"task_t(\d+)_", name.split("::")[-1])
+    return int(m.group(1)) if m else -1
+
+
 def canon_impl(o, sigs):
     """Implementation observation -> comparable form. sigs accumulates signature maps."""
     for s in o.get("tasks", []):
-        sigs["t"][s["sig"]] = int(s["name"].split("::")[-1][6:-1])
+        sigs["t"][s["sig"]] = tid_of_name(s["name"])
     for sig, fname in o.get("nodes", {}).items():
         if fname.startswith("f") and fname.endswith(".txt"):
             sigs["n"][sig] = int(fname[1:-4])
+        elif fname.startswith("pat") and fname.endswith(".in"):
+            d, g = fname.split("/")
+            sigs["n"][sig] = 10000 + 100 * int(d[3:]) + int(g[1:-3])
     reports = [(sigs["t"].get(sig, -1), OUTCOMES.index(oc)) for sig, oc in o.get("reports", [])]
     log = [2 * t + (0 if a == "S" else 1) for a, t in o["log"]]
     db = set()
